@@ -124,6 +124,17 @@ func (c06) Run(c Case, env *Env) Result {
 		// complete maps for exactly the values of this history
 		tm, nm := map[string]reflect.Type{}, map[string]string{}
 		switch c.Kind {
+		case "lit":
+			m := map[interface{}]interface{}{"k": int32(1), int32(2): "two"}
+			l := []interface{}{int32(1), "two"}
+			nm2 := zoo.NamedMap{"a": 1}
+			switch c.S {
+			case "map-resent":
+				hist = []interface{}{m, "between", m, nm2, nm2}
+			case "list-resent":
+				hist = []interface{}{l, l, []interface{}{l, m}, m}
+			}
+			mode = j % 4
 		case "alpha":
 			k := j
 			if c.N >= 0 {
@@ -188,6 +199,11 @@ func (c06) Run(c Case, env *Env) Result {
 			}
 			if len(hist) == 0 {
 				continue
+			}
+		}
+		if c.Kind == "lit" {
+			for _, v := range hist {
+				mergeMaps(tm, nm, v)
 			}
 		}
 		if c.Kind == "alpha" {
